@@ -119,11 +119,15 @@ def run(ctx):
         for b, name in names.items():
             if fl & b:
                 flagcount[name] = flagcount.get(name, 0) + 1
-        bad = fl & ~IGNORE_BITS
+        # "checker rejected" / "accepted by the subdivision certificate" / "undecided" are informational, per case kind; the known
+        # finding (flag 16) exists for Bezier flattenings only — other kinds use the same bit values for other things
+        ignore = {"CQuad": 32 | 256, "CCube": 32 | 256, "CCirc": 32, "CXMono": 32, "CEll": 256}.get(k, 0)
+        kmask = known_mask if k in ("CQuad", "CCube") else 0
+        bad = fl & ~ignore
         if not bad:
             continue
-        newbits = bad & ~known_mask
-        if bad & known_mask & KNOWN_BIT:
+        newbits = bad & ~kmask
+        if bad & kmask & KNOWN_BIT:
             known_hits.append((c, row))
         if newbits:
             if any(names.get(b, "").startswith("prop:") for b in names if newbits & b) or not names:
